@@ -51,7 +51,7 @@ Section P.
     - destruct (has_key (s_ "self") S); [exfalso; revert H; unfold fail; discriminate|].
       destruct (str_eqb t (s_ "array")).
       + apply ret_inv in H as [<- _]. exists x. split; [|now left].
-        cbn [elem_default]. destruct (k_items (filter_kw CArray K)); cbn [k_default]; now rewrite filter_kw_default.
+        cbn [elem_default]. unfold arr_record. destruct (k_items (filter_kw CArray K)); cbn [k_default]; now rewrite filter_kw_default.
       + destruct (lookup t type_mapping) as [c|]; [|exfalso; revert H; unfold fail; discriminate].
         apply ret_inv in H as [<- _]. exists x. split; [|now left]. cbn [elem_default]. now rewrite filter_kw_default.
   Qed.
@@ -89,6 +89,6 @@ Section P.
       + apply ret_inv in H as [<- _]. right. exists (strip_autotitle d). split; auto.
       + apply ret_inv in H as [<- _].
         destruct (elem_eq_dec_nothing element) as [E|E]; [left; rewrite E; reflexivity|right; now apply with_elem_default_carried].
-    - right. eapply finish_plain_carried; [| |exact H]; auto.
+    - right. eapply finish_plain_carried; [| |exact H]; [unfold kw_record; cbn [k_default]; rewrite Hd; reflexivity|exact HS].
   Qed.
 End P.
